@@ -22,18 +22,18 @@ type SVal struct {
 }
 
 type Env struct {
-	a      *Act
-	u      *Unit
-	cur    *State
-	old    *State
-	lookup func(name string) (SVal, bool)
-	oldLookup func(name string) (SVal, bool)
-	result []Val
-	pkg    *types.Package
-	bound  map[string]SVal
-	qn     *int
-	fn     *ssa.Function
-	loopEntry *State
+	a               *Act
+	u               *Unit
+	cur             *State
+	old             *State
+	lookup          func(name string) (SVal, bool)
+	oldLookup       func(name string) (SVal, bool)
+	result          []Val
+	pkg             *types.Package
+	bound           map[string]SVal
+	qn              *int
+	fn              *ssa.Function
+	loopEntry       *State
 	loopEntryLookup func(name string) (SVal, bool)
 }
 
@@ -180,6 +180,10 @@ func (env *Env) eval(e Expr) SVal {
 		return n.value(n.eval(x.X))
 	case *EResult:
 		if env.result == nil {
+			if x.Idx < 0 {
+				// no function result in scope (loop invariants): a program variable called "result"
+				return env.ident("result")
+			}
 			fail("result not available here")
 		}
 		if x.Idx < 0 {
@@ -469,6 +473,14 @@ func (env *Env) index(v SVal, i SVal) SVal {
 			if v.Elem != nil && !strings.HasSuffix(v.Sort, " Bool)") {
 				return env.sv(sel(v.T, i.T), v.Elem)
 			}
+			switch {
+			case strings.HasSuffix(v.Sort, " Real)"):
+				return SVal{T: sel(v.T, i.T), Sort: "Real"}
+			case strings.HasSuffix(v.Sort, " Int)"):
+				return SVal{T: sel(v.T, i.T), Typ: tInt, Sort: "Int"}
+			case strings.HasSuffix(v.Sort, " Ref)"):
+				return SVal{T: sel(v.T, i.T), Sort: "Ref"}
+			}
 			return SVal{T: sel(v.T, i.T), Typ: tBool, Sort: "Bool"}
 		}
 		fail("index of ghost value of sort %s", v.Sort)
@@ -660,13 +672,17 @@ func (env *Env) call(x *ECall) SVal {
 		return SVal{T: app("scap", v.T), Typ: tInt, Sort: "Int"}
 	case "fresh":
 		v := env.value(env.eval(x.Args[0]))
+		a0 := u.alloc0
+		if env.old != nil {
+			a0 = env.old.alloc // fresh = allocated after the pre-state of the contract being evaluated
+		}
 		switch v.Sort {
 		case "Slice":
-			return b(or(eq(app("sarr", v.T), "nil"), app(">=", app("rid", app("sarr", v.T)), u.alloc0)))
+			return b(or(eq(app("sarr", v.T), "nil"), app(">=", app("rid", app("sarr", v.T)), a0)))
 		case "Ref":
-			return b(app(">=", app("rid", v.T), u.alloc0))
+			return b(app(">=", app("rid", v.T), a0))
 		case "Iface":
-			return b(app(">=", app("rid", app("iptr", v.T)), u.alloc0))
+			return b(app(">=", app("rid", app("iptr", v.T)), a0))
 		}
 		fail("fresh of %s", v.Sort)
 	case "elemAddr":
@@ -728,6 +744,17 @@ func (env *Env) call(x *ECall) SVal {
 			v.T = toReal(v.T)
 		}
 		return SVal{T: store(arr.T, k.T, v.T), Sort: arr.Sort, Elem: arr.Elem}
+	case "live":
+		// live(e): every reference in e is allocated in the current state (heap well-formedness, stated explicitly
+		// where a quantified invariant ranges over pointers)
+		v := env.value(env.eval(x.Args[0]))
+		if v.Typ == nil {
+			if v.Sort == "Ref" {
+				return b(app("<", app("rid", v.T), env.cur.alloc))
+			}
+			fail("live of ghost value")
+		}
+		return b(env.cur.allocated(v.T, v.Typ))
 	case "ite":
 		c := env.eval(x.Args[0])
 		p, q := env.value(env.eval(x.Args[1])), env.value(env.eval(x.Args[2]))
